@@ -51,3 +51,4 @@ fn with_id_const(item: TokenStream) -> TokenStream {
 #[proc_macro_attribute] pub fn singleton(_a: TokenStream, item: TokenStream) -> TokenStream { item }
 #[proc_macro_attribute] pub fn transient(_a: TokenStream, item: TokenStream) -> TokenStream { item }
 #[proc_macro_attribute] pub fn error_handler(_a: TokenStream, item: TokenStream) -> TokenStream { item }
+#[proc_macro_attribute] pub fn fallback(_a: TokenStream, item: TokenStream) -> TokenStream { with_id_const(item) }
